@@ -95,6 +95,12 @@ def handle (op : String) (args : List String) : Option String := do
         let d ← v3Of ((fs.drop 11).take 3); let v ← v3Of (fs.drop 14)
         pure (fsHex (v3To (((trs.New p r sc).Translate d).Transform v)))
   -- oracles for Props/C17More.lean ------------------------------------------------------
+  | "c17.holds.mulpos" => do           -- a p out(=a.MulPosition p): rows 0..2 of a times (p,1), written out independently of the generated code
+      let m := fs.take 16; let p ← v3Of ((fs.drop 16).take 3); let o ← v3Of (fs.drop 19)
+      let e := fun (i : Nat) => m.getD i 0
+      let row := fun (r : Nat) => e (4*r) * p.x + e (4*r+1) * p.y + e (4*r+2) * p.z + e (4*r+3)
+      let sc := 1 + (m.foldl (fun a x => max a x.abs) 0) * (1 + p.Length)
+      pure (boolStr ((row 0 - o.x).abs ≤ 1e-9 * sc && (row 1 - o.y).abs ≤ 1e-9 * sc && (row 2 - o.z).abs ≤ 1e-9 * sc))
   | "c17.holds.rodrigues" => do        -- θ axis(non-zero) v out(=FromTheta(θ,axis).Rotate(v)) : Rodrigues' formula about axis/|axis|
       let θ := fs.getD 0 0
       let k ← v3Of ((fs.drop 1).take 3); let v ← v3Of ((fs.drop 4).take 3); let out ← v3Of (fs.drop 7)
